@@ -65,3 +65,9 @@ CLAIMS["C19"] = (
  "Trusted: sync.Pool/sync.Once internals; aliasing approximated by address roots (global / receiver = shared, Alloc / call result = local); fixture corpus for S2 rules; frozen list of mutating big.Rat methods.",
  "static analysis: effect / who-may-write analysis on SSA address roots, typestate on pooled objects",
 )
+CLAIMS["C07"] = (
+ "other",
+ "Structural necessary conditions of '$ref is transparent and cycles terminate': AddKey/Delete pairing (Delete of the same key deferred on AddKey's success edge before any return, nowhere else) and the measure (AddKey refuses at depth 0 and for keys in progress, decrements; Delete increments and removes); a dereferenced target is parsed only under a successful AddKey in every resolving function (incl. every instantiation of resolveComponent); results cached by reference key depend only on the key (parse callbacks capture nothing but the parser) — two known findings (resolveHeader captures headerName, resolvePathItem captures itemPath); recursive struct types are checked after all operations and required recursion is an error; the schema-depth panic is paired with its recover on every entry. Structural equality of a spec with its inlined form, Expand round trip and multi-file URL resolution values are NOT decided.",
+ "Trusted: go/ssa (generic instantiations included); the parser is single-threaded per parse.",
+ "static analysis: typestate/pairing on SSA (defer + dominance), closure free-variable rule for cached callbacks, call-order and error-propagation checks",
+)
